@@ -138,3 +138,21 @@ impl<'a> core::iter::Sum<&'a Element> for Element {
         iter.fold(Self::zero(), core::ops::Add::add)
     }
 }
+
+// Verification hook (guard: --cfg decaf377_verif). Additive only: exposes the exact internal
+// representative so an external explorer can snapshot / rebuild states, including
+// representatives no public constructor yields.
+#[cfg(decaf377_verif)]
+impl Element {
+    /// (X, Y, Z, T) of the internal extended-coordinates point.
+    pub fn verif_coords(&self) -> [Fq; 4] {
+        [self.inner.x, self.inner.y, self.inner.z, self.inner.t]
+    }
+
+    /// Rebuild an element from raw extended coordinates without any check.
+    pub fn verif_from_coords_unchecked(x: Fq, y: Fq, z: Fq, t: Fq) -> Self {
+        Element {
+            inner: EdwardsProjective::new_unchecked(x, y, t, z),
+        }
+    }
+}
